@@ -65,6 +65,11 @@ def obligations():
               "sequential read(n) on TINKER arc returns the next n frames", 90),
           Obl("C18.arc.seek_tell", "xh", "harness.c18_text", "arc_seek_tell", ["mdtraj.formats.arc.ArcTrajectoryFile.seek", "mdtraj.formats.arc.ArcTrajectoryFile.tell"], "total<=5",
               "arc is listed as seekable: seek(k); tell()==k", 30)]
+    for fmt, mod in (("h5", "harness.c18_array"), ("nc", "harness.c18_array"), ("mdcrd", "harness.c18_text"), ("xyz", "harness.c18_text"), ("lammpstrj", "harness.c18_text")):
+        o.append(Obl(f"C18.{fmt}.history", "xh", mod, f"{fmt}_history", [f"{fmt}: read / seek / tell / __len__ in sequence on one freshly opened handle"],
+                     "3 operations out of {read(n), read(), seek(k), seek(-d,1), seek(+d,1), len} with arguments 1..2 on files of 2..4 frames",
+                     "after every operation the data returned, tell() and len() agree with a bare cursor over the frames (sequences exercise whatever private state the class keeps between calls)", 600,
+                     quick_pre="total == 3 and a0 == 1 and a1 == 1 and a2 == 1", thorough_pre="total <= 3 and 1 <= a0 <= 2 and 1 <= a1 <= 2 and 1 <= a2 <= 2", timeout_thorough=3400))
     return o
 
 MANIFEST_INFO = {
